@@ -30,6 +30,10 @@ pub enum Call {
     Slice(usize, u32, u32),
     Ext(bool, usize, u32),
     Ite(usize, usize, usize),
+    /// compound three-operand constructors `xor3` / `majority`
+    Tri(&'static str, usize, usize, usize),
+    /// `zero_array` of the given (index width, data width)
+    ZeroArr(u32, u32),
     ArrConst(usize, u32),
     ArrStore(usize, usize, usize),
     ArrRead(usize, usize),
@@ -72,6 +76,8 @@ pub fn call_to_json(c: &Call) -> Value {
         Call::Slice(a, h, l) => json!(["slice", a, h, l]),
         Call::Ext(s, a, k) => json!(["ext", s, a, k]),
         Call::Ite(c, a, b) => json!(["ite", c, a, b]),
+        Call::Tri(o, a, b, c) => json!(["tri", o, a, b, c]),
+        Call::ZeroArr(i, d) => json!(["zero_array", i, d]),
         Call::ArrConst(a, iw) => json!(["arr_const", a, iw]),
         Call::ArrStore(a, i, d) => json!(["arr_store", a, i, d]),
         Call::ArrRead(a, i) => json!(["arr_read", a, i]),
@@ -109,6 +115,8 @@ pub fn call_from_json(v: &Value) -> Result<Call, String> {
         "slice" => Call::Slice(u(1)?, u(2)? as u32, u(3)? as u32),
         "ext" => Call::Ext(v[1].as_bool().ok_or("signed")?, u(2)?, u(3)? as u32),
         "ite" => Call::Ite(u(1)?, u(2)?, u(3)?),
+        "tri" => Call::Tri(if s(1)? == "xor3" { "xor3" } else { "majority" }, u(2)?, u(3)?, u(4)?),
+        "zero_array" => Call::ZeroArr(u(1)? as u32, u(2)? as u32),
         "arr_const" => Call::ArrConst(u(1)?, u(2)? as u32),
         "arr_store" => Call::ArrStore(u(1)?, u(2)?, u(3)?),
         "arr_read" => Call::ArrRead(u(1)?, u(2)?),
@@ -151,7 +159,7 @@ fn refnum(e: ExprRef) -> u32 {
 pub fn build_literal(ctx: &mut Context, bits: &str, route: u8) -> ExprRef {
     let w = bits.len() as u32;
     let direct = BitVecValue::from_bit_str(bits).unwrap();
-    match route % 8 {
+    match route % 12 {
         0 => ctx.bv_lit(&direct),
         1 if w <= 128 => {
             let v = u128::from_str_radix(bits, 2).unwrap();
@@ -191,6 +199,30 @@ pub fn build_literal(ctx: &mut Context, bits: &str, route: u8) -> ExprRef {
             // sign extend then slice back; via `lit(Value)`
             let v = direct.sign_extend(3).slice(w - 1, 0);
             ctx.lit(baa::Value::BitVec(v))
+        }
+        // the same routes through the `Builder` wrapper handed out by `Context::build`
+        9 => {
+            if w <= 128 && w % 2 == 0 {
+                let v = u128::from_str_radix(bits, 2).unwrap();
+                ctx.build(|b| b.bit_vec_val(v, w))
+            } else {
+                ctx.build(|b| b.bv_lit(&direct))
+            }
+        }
+        10 | 11 => {
+            let all = |c: char| bits.chars().all(|x| x == c);
+            let is_one = bits[..bits.len() - 1].chars().all(|c| c == '0') && bits.ends_with('1');
+            if w == 1 && route % 12 == 11 {
+                if bits == "1" { ctx.build(|b| b.get_true()) } else { ctx.build(|b| b.get_false()) }
+            } else if all('0') {
+                ctx.build(|b| b.zero(w))
+            } else if all('1') {
+                ctx.build(|b| b.ones(w))
+            } else if is_one {
+                ctx.build(|b| b.one(w))
+            } else {
+                ctx.build(|b| b.bv_lit(&direct))
+            }
         }
         _ => {
             // special constructors where they apply
@@ -321,7 +353,7 @@ pub fn gen_program(rng: &mut Rng, n: usize, burst: bool) -> Vec<Call> {
         if c.is_empty() { None } else { Some(*rng.pick(&c)) }
     };
     for step in 0..n {
-        let r = rng.below(24);
+        let r = rng.below(26);
         let (call, ty): (Call, Option<Ty>) = match r {
             0 | 1 => {
                 let ty = if rng.chance(1, 4) {
@@ -333,7 +365,7 @@ pub fn gen_program(rng: &mut Rng, n: usize, burst: bool) -> Vec<Call> {
             }
             2..=5 => {
                 let w = pick_width(rng);
-                (Call::Lit(gen_bits(rng, w), rng.below(9) as u8), Some(Ty::Bv(w)))
+                (Call::Lit(gen_bits(rng, w), rng.below(12) as u8), Some(Ty::Bv(w)))
             }
             6 => (Call::Str(rng.pick(&names).to_string()), None),
             7 => (if rng.bool() { Call::True } else { Call::False }, Some(Ty::Bv(1))),
@@ -449,6 +481,20 @@ pub fn gen_program(rng: &mut Rng, n: usize, burst: bool) -> Vec<Call> {
                 }
                 None => continue,
             },
+            24 => match find(&types, rng, &|t| matches!(t, Ty::Bv(_))) {
+                Some(a) => {
+                    let ta = types[a].clone().unwrap();
+                    match (find(&types, rng, &|t| *t == ta), find(&types, rng, &|t| *t == ta)) {
+                        (Some(b), Some(c)) => (Call::Tri(if rng.bool() { "xor3" } else { "majority" }, a, b, c), Some(ta)),
+                        _ => continue,
+                    }
+                }
+                None => continue,
+            },
+            25 => {
+                let (iw, dw) = (*rng.pick(&[1u32, 2, 4, 8]), *rng.pick(&[1u32, 4, 8, 32, 65]));
+                (Call::ZeroArr(iw, dw), Some(Ty::Arr(iw, dw)))
+            }
             _ => {
                 let iw = *rng.pick(&[1u32, 2, 4]);
                 let dw = *rng.pick(&[1u32, 4, 8]);
@@ -575,6 +621,21 @@ fn execute(p: &Programs, n_calls: &mut u64, probes: &mut FxHashMap<&'static str,
         let mut expect_same_as: Option<ExprRef> = None;
         let via_builder = crate::rng::fnv1a(format!("{call:?}@{}", pcs[c]).as_bytes()) % 3 == 0;
         let out: Option<ExprRef> = match call {
+            Call::Sym(name, ty, _) if via_builder => Some(match ty {
+                Ty::Bv(w) => ctx.build(|b| b.bv_symbol(name, *w)),
+                Ty::Arr(i, d) => {
+                    let sr = ctx.string(name.as_str().into());
+                    ctx.build(|b| {
+                        b.symbol(
+                            sr,
+                            Type::Array(ArrayType {
+                                index_width: *i,
+                                data_width: *d,
+                            }),
+                        )
+                    })
+                }
+            }),
             Call::Sym(name, ty, route) => Some(match (ty, route % 2) {
                 (Ty::Bv(w), 0) => ctx.bv_symbol(name, *w),
                 (Ty::Arr(i, d), 0) => ctx.array_symbol(name, *i, *d),
@@ -594,6 +655,55 @@ fn execute(p: &Programs, n_calls: &mut u64, probes: &mut FxHashMap<&'static str,
                 }
             }),
             Call::Lit(bits, route) => Some(build_literal(&mut ctx, bits, *route)),
+            Call::Slice(a, hi, lo) if via_builder => {
+                let x = arg(*a);
+                let w = x.get_bv_type(&ctx).unwrap();
+                if *lo == 0 && *hi + 1 == w {
+                    expect_same_as = Some(x);
+                }
+                Some(ctx.build(|b| b.slice(x, *hi, *lo)))
+            }
+            Call::Ext(signed, a, by) if via_builder => {
+                let x = arg(*a);
+                if *by == 0 {
+                    expect_same_as = Some(x);
+                }
+                Some(match (pcs[c] % 2 == 0, *signed) {
+                    (true, _) => ctx.build(|mut b| b.extend(x, *by, *signed)),
+                    (false, true) => ctx.build(|b| b.sign_extend(x, *by)),
+                    (false, false) => ctx.build(|b| b.zero_extend(x, *by)),
+                })
+            }
+            Call::Tri(op, a, b, cc) => {
+                let (x, y, z) = (arg(*a), arg(*b), arg(*cc));
+                // compound constructors: the documented composition, built node by node
+                let composed = if *op == "xor3" {
+                    let t = ctx.xor(x, y);
+                    ctx.xor(t, z)
+                } else {
+                    let ab = ctx.and(x, y);
+                    let ac = ctx.and(x, z);
+                    let bc = ctx.and(y, z);
+                    let t = ctx.or(ab, ac);
+                    ctx.or(t, bc)
+                };
+                expect_same_as = Some(composed);
+                Some(match (via_builder, *op) {
+                    (true, "xor3") => ctx.build(|mut b| b.xor3(x, y, z)),
+                    (true, _) => ctx.build(|mut b| b.majority(x, y, z)),
+                    (false, "xor3") => ctx.xor3(x, y, z),
+                    (false, _) => ctx.majority(x, y, z),
+                })
+            }
+            Call::ZeroArr(iw, dw) => {
+                let zero = ctx.zero(*dw);
+                expect_same_as = Some(ctx.array_const(zero, *iw));
+                let tpe = ArrayType {
+                    index_width: *iw,
+                    data_width: *dw,
+                };
+                Some(if via_builder { ctx.build(|b| b.zero_array(tpe)) } else { ctx.zero_array(tpe) })
+            }
             // a third of the operator calls go through `Context::build` (the `Builder` wrapper,
             // a second public route to every constructor): same structure, so same reference
             Call::Un(op, a) if via_builder => {
@@ -843,7 +953,7 @@ fn execute(p: &Programs, n_calls: &mut u64, probes: &mut FxHashMap<&'static str,
         return Err(v);
     }
     // every route of building 1-bit one / zero is the constant true / false
-    for route in 0..9u8 {
+    for route in 0..12u8 {
         if build_literal(&mut ctx, "1", route) != t0 || build_literal(&mut ctx, "0", route) != f0 {
             return Err(mk("TrueFalseNotCanonical", "literal", format!("1-bit literal built by route {route} is not get_true/get_false")));
         }
@@ -1102,6 +1212,11 @@ pub fn apply_call_plain(ctx: &mut Context, call: &Call, res: &[Option<ExprRef>])
             ctx.zero_extend(arg(*a), *by)
         }),
         Call::Ite(c, a, b) => Some(ctx.ite(arg(*c), arg(*a), arg(*b))),
+        Call::Tri(op, a, b, c) => Some(if *op == "xor3" { ctx.xor3(arg(*a), arg(*b), arg(*c)) } else { ctx.majority(arg(*a), arg(*b), arg(*c)) }),
+        Call::ZeroArr(iw, dw) => Some(ctx.zero_array(ArrayType {
+            index_width: *iw,
+            data_width: *dw,
+        })),
         Call::ArrConst(a, iw) => Some(ctx.array_const(arg(*a), *iw)),
         Call::ArrStore(a, i, d) => Some(ctx.array_store(arg(*a), arg(*i), arg(*d))),
         Call::ArrRead(a, i) => Some(ctx.array_read(arg(*a), arg(*i))),
